@@ -361,6 +361,19 @@ def tree_check(ctx, props, focus, replay=None):
     K = 8 if quick else 10
     hdr, bh, nstates = bfs_shapes(ctx, K)
     nb += run_histories(ctx, exe, [(hdr + h, p) for h, p in bh], 'exhaustive', focus)
+    # hidden shared state inside the library (e.g. file-scope statics) would let one table's operation disturb another's:
+    # threads working on private tables in parallel must each see a valid tree with exactly their own keys
+    exc, msgc = ctx.cc('h_conc', CORE_SRCS, ['h_conc.c'])
+    if exc is not None:
+        for rep in range(2 if quick else 10):
+            rc, o, er = ctx.run([exc, 'twotables', '4', '400', str(ctx.seed * 10 + rep)], timeout=120)
+            ctx.cov['evaluations'] += 1
+            ctx.count('private-tables-in-parallel')
+            if rc != 0:
+                line = (o.decode('latin1').strip().splitlines() or ['(no output, exit %s)' % rc])[-1]
+                ctx.report('schedule', {'op': 'put', 'observed': 'private-table-disturbed-by-another-thread'},
+                           'threads on private tables: ' + line[:200], {'cmd': 'h_conc twotables 4 400 %d' % (ctx.seed * 10 + rep), 'output': (o + er).decode('latin1')[-1500:]})
+                break
     ctx.cov['states'] = nstates
     ctx.cov['transitions'] = len(bh)
     ctx.cov['exhaustive'] = False
